@@ -100,6 +100,16 @@ def run(F, R):
             R.check("C12-R1", "fresh-query-before-every-wait:" + _k(cx), bool(q_calls) and not stale, "the main wait is only entered after asking the policy again",
                     "the main wait can be re-entered without asking the policy for the next check time (stale timers, no ScheduleChange): %s" % (S.fmt_path(p_) if p_ else ""), S.nodes[sn].loc())
 
+            # .. and armed again: between that query and the wait the timers are created for the timing just returned
+            arm_calls = [n.idx for n in S.nodes if n.ctx is cx and n.idx in S.live and n.term["k"] == "call" and n.term.get("callee_id") == mv.body.get("parent")]
+            stale_t = any(sn in reach_in(S, S.succ[q_], cx, cut_nodes=arm_calls) for q_ in q_calls) or sn in reach_in(S, [cx.entry], cx, cut_nodes=arm_calls)
+            p2_ = None
+            if stale_t:
+                for q_ in q_calls:
+                    p2_ = p2_ or path(S, S.succ[q_], [sn], cut_nodes=arm_calls)
+            R.check("C12-R1", "fresh-timers-before-every-wait:" + _k(cx), bool(arm_calls) and not stale_t, "after every policy query the timers are created anew before the wait",
+                    "the main wait can be entered with timers that were not created for the timing the policy just returned (kept from an earlier iteration): %s" % (S.fmt_path(p2_) if p2_ else ""), S.nodes[sn].loc())
+
     # ---------------------------------------------------------------- R2 both timers must fire
     R.rule("C12-R2", "with a minimum wait the two timers are combined conjunctively (join); without it exactly wait_until(time) is armed; arguments are the timing's fields")
     if mv is not None:
